@@ -76,7 +76,7 @@ theorem gen_faithful_partial (info : Int → Info) (H first last lastWall : Int)
   simp only [Option.map_some, Option.some.injEq] at hgen
   subst hgen
   obtain ⟨hE1, hE2⟩ := gen_entries _ lastWall hnld
-  obtain ⟨gs, hgs, hgst, hgi, hgmax⟩ := chain_info info (fun x => x + (info x).off) H last (by unfold maxStep at hH; omega)
+  obtain ⟨gs, hgs, hgst, hgi, hgmax⟩ := chain_info info (fun x => x + (info x).off) H last (by have := maxStep_pos; omega)
     Ts first none hc t h1 h2
   have hons : onsetOf gs ≤ t := (hout gs hgs).1 hgst
   obtain ⟨ps, hps, hps1, _, _, _⟩ := hE2 gs hgs
